@@ -285,7 +285,7 @@ def compare_model(ctx, init, ops, real, reply, case):
     states, _ = ref_states(ops)
     parts = reply[3:].split(';')
     merr = None
-    if parts and parts[-1].startswith('!'):
+    if parts and parts[-1].startswith('!') and ',' not in parts[-1]:
         merr = parts.pop()[1:]
     head = 'initial size %d, history [%s]: ' % (init, short_ops(ops))
     ok = True
@@ -296,7 +296,9 @@ def compare_model(ctx, init, ops, real, reply, case):
             ctx.diverge(head + what, case)
         ok = False
 
-    if merr is not None or real.err is not None:
+    if merr == 'Timeout':
+        ctx.count('history-leaves-the-model')      # negative length field / header read from garbage: not modelled
+    elif merr is not None or real.err is not None:
         ms = (len(parts), merr) if merr is not None else None
         rs = (real.err[0], real.err[1]) if real.err is not None else None
         if ms != rs:
@@ -310,9 +312,9 @@ def compare_model(ctx, init, ops, real, reply, case):
             bad('malformed observation %r' % parts[i][:120])
             break
         where = 'after %s ' % step_name(ops, i)
-        if f[0] != o['h']:
+        if f[0] != o['h'] and f[0] != '!Timeout':
             bad(where + 'model read_all_values %s, implementation %s' % (short_triples(f[0]), short_triples(o['h'])))
-        if f[1] != o['f']:
+        if f[1] != o['f'] and f[1] != '!Timeout':
             bad(where + 'model read_all_values_from_file %s, implementation %s' % (short_triples(f[1]), short_triples(o['f'])))
         if f[2] != triples_str(states[i]):
             bad(where + 'model spec store %s, Python reference %s' % (short_triples(f[2]), short_triples(triples_str(states[i]))))
@@ -609,8 +611,10 @@ def entry_offsets(raw):
     """offsets of the length fields of a valid file"""
     used = struct.unpack_from('<i', raw, 0)[0]
     pos, out = 8, []
-    while pos < used:
+    while pos < used and pos + 4 <= len(raw):
         n = struct.unpack_from('<i', raw, pos)[0]
+        if n < 0 or pos + n > used:
+            break                # not a file this layout explains (a changed writer): keep what was found
         out.append((pos, n))
         pos += 4 + n + (8 - (n + 4) % 8) + 16
     return used, out
